@@ -5,7 +5,9 @@
      ProofsDecode  decoding an encoded frame / stream; prefix stability; fuel
      ProofsTorn    the decoder at a torn frame
      ProofsPrefix  the prefix theorem for truncated images
+     ProofsRepair  Repair = truncate at lastValidOff iff the verdict is UnexpectedEOF / size limit
+     ProofsWriter  the writer: the tail is an encoder stream, sync points are frame boundaries
      ProofsLog     ReadAll's entry placement
      ProofsRefute  witnesses against the full statement (Spec.C05_full) *)
 From ZV Require Export Wal.ProofsCrc Wal.ProofsProto Wal.ProofsFrame Wal.ProofsDecode Wal.ProofsTorn
-  Wal.ProofsPrefix Wal.ProofsLog Wal.ProofsRefute.
+  Wal.ProofsPrefix Wal.ProofsRepair Wal.ProofsWriter Wal.ProofsLog Wal.ProofsRefute.
